@@ -309,6 +309,12 @@ func mixedSlashingSteps() []chain.StepPlan {
 			st.Block = &chain.BlockPlan{AttesterSlashings: []chain.AttesterSlashingPlan{{Indices: vi(9, 16)}}}
 		case 14:
 			st.Block = &chain.BlockPlan{AttesterSlashings: []chain.AttesterSlashingPlan{{Indices: vi(3, 11), Surround: true}}}
+		case 5:
+			// partial intersection: {1, 12, 13, 14} and {7, 12, 13, 15} - only 12 and 13 signed both
+			st.Block = &chain.BlockPlan{AttesterSlashings: []chain.AttesterSlashingPlan{{Indices: vi(12, 13), Only1: vi(1, 14), Only2: vi(7, 15)}}}
+		case 22:
+			// ... and with the already slashed 3 in the intersection, surround vote: {2, 3, 4} and {0, 3, 4, 8}
+			st.Block = &chain.BlockPlan{AttesterSlashings: []chain.AttesterSlashingPlan{{Indices: vi(3, 4), Only1: vi(2), Only2: vi(0, 8), Surround: true}}}
 		case 38:
 			// validator 5: exit epoch 2+1+2 = 5, withdrawable 7: at epoch 9 it is no longer slashable
 			st.Block = &chain.BlockPlan{AttesterSlashings: []chain.AttesterSlashingPlan{{Indices: vi(5, 10)}}}
@@ -358,11 +364,18 @@ func depositSignatureShapes(c *chain.Chain) error {
 		add(chain.KeyID(2+i), inc*2, how)
 	}
 	// new pubkeys 16..21, then the valid re-deposits of 17..21
+	// (the valid one above MAX_EFFECTIVE_BALANCE: a new validator's effective balance is capped)
 	for i, how := range []string{"valid", "wrong", "zero", "ff", "garbage", "infinity"} {
-		add(chain.KeyID(16+i), 0, how)
+		amount := common.Gwei(0)
+		if how == "valid" {
+			amount = spec.MAX_EFFECTIVE_BALANCE + 3*inc
+		}
+		add(chain.KeyID(16+i), amount, how)
 	}
 	for k := 17; k <= 21; k++ {
-		add(chain.KeyID(k), 0, "valid")
+		// 17: above the cap, 18: one increment below it, 19: not a multiple of the increment
+		amount := map[int]common.Gwei{17: spec.MAX_EFFECTIVE_BALANCE + inc + 7, 18: spec.MAX_EFFECTIVE_BALANCE - inc, 19: spec.MAX_EFFECTIVE_BALANCE - inc/2}[k]
+		add(chain.KeyID(k), amount, "valid")
 	}
 	cur, _ := c.Eth1()
 	ed := c.Deposits.Eth1Data(c.Deposits.Count())
